@@ -30,6 +30,7 @@ type Tape interface {
 type wakeMsg struct {
 	ent   uint64
 	child int
+	rot   int // how often this goroutine has already asked for entropy at this site
 }
 
 type parkReq struct {
@@ -60,6 +61,30 @@ type G struct {
 	Site      string // last site seen
 	req       parkReq
 	Steps     int
+	recent    [6]string // sites of the last steps (busy-loop detection)
+	lastRun   int
+	visits    map[string]int
+}
+
+// spinning reports a goroutine whose last six steps visited at most two distinct sites: a busy
+// loop polling for something only other goroutines can bring about (e.g. the tracer re-selecting on
+// a cancelled context until its senders are done).
+func (g *G) spinning() bool {
+	if g.Steps < len(g.recent) {
+		return false
+	}
+	a, b := g.recent[0], ""
+	for _, s := range g.recent[1:] {
+		if s == a || s == b {
+			continue
+		}
+		if b == "" {
+			b = s
+			continue
+		}
+		return false
+	}
+	return true
 }
 
 // Config of one simulated run.
@@ -81,6 +106,7 @@ type Result struct {
 	Log       []string
 	Spawned   int
 	IdleJumps int
+	FairnessSwitches int
 	all       []*G
 	SimTime   time.Duration
 }
@@ -168,14 +194,25 @@ func Yield(site string) {
 //
 //go:norace
 func Entropy(site string, n int) int {
+	k, _ := entropyRot(site, n)
+	return k
+}
+
+// entropyRot also returns how many times the calling goroutine has asked at this site before. A
+// select or map iteration whose tape value is 0 ("source order") uses it to rotate its probe order,
+// so that a loop re-executing the same select does not starve its later cases (the runtime's select
+// is fair); the first execution is unaffected.
+//
+//go:norace
+func entropyRot(site string, n int) (int, int) {
 	raceDisable()
 	defer raceEnable()
 	s := cur.Load()
 	if s == nil || n <= 1 {
-		return 0
+		return 0, 0
 	}
 	m := yieldReq(s, parkReq{site: site, simID: -1, needEnt: n})
-	return int(m.ent)
+	return int(m.ent), m.rot
 }
 
 // CurG returns the simulated id of the goroutine that is currently allowed to run (-1 outside a
@@ -430,6 +467,30 @@ func run(cfg Config, main func()) (*Result, chan struct{}) {
 			k = cfg.Tape.Choose("sched", len(run)) % len(run)
 		}
 		g := run[k]
+		if k == 0 && len(run) > 1 && g == s.last && g.spinning() {
+			// "keep running the current goroutine" would starve everybody behind a busy loop, which no
+			// real (preemptive) scheduler does: hand over to the runnable goroutine that has waited
+			// longest and is not itself polling. Deterministic, consumes no tape.
+			var best, bestSpin *G
+			for _, x := range run[1:] {
+				if x.spinning() {
+					if bestSpin == nil || x.lastRun < bestSpin.lastRun {
+						bestSpin = x
+					}
+					continue
+				}
+				if best == nil || x.lastRun < best.lastRun {
+					best = x
+				}
+			}
+			if best == nil {
+				best = bestSpin // only pollers are runnable: rotate among them
+			}
+			if best != nil {
+				g = best
+				res.FairnessSwitches++
+			}
+		}
 		if g != s.last {
 			res.Switches++
 		}
@@ -446,6 +507,11 @@ func run(cfg Config, main func()) (*Result, chan struct{}) {
 		var m wakeMsg
 		if g.req.needEnt > 1 {
 			m.ent = uint64(cfg.Tape.Choose("ent", g.req.needEnt))
+			if g.visits == nil {
+				g.visits = map[string]int{}
+			}
+			m.rot = g.visits[g.req.site]
+			g.visits[g.req.site]++
 		}
 		if g.req.spawn {
 			c := &G{ID: len(s.all), SpawnSite: strings.TrimPrefix(g.req.site, "go@"), state: stBlocked}
@@ -454,6 +520,9 @@ func run(cfg Config, main func()) (*Result, chan struct{}) {
 		}
 		g.state = stRunning
 		s.curG.Store(int64(g.ID))
+		copy(g.recent[:], g.recent[1:])
+		g.recent[len(g.recent)-1] = g.Site
+		g.lastRun = res.Steps
 		g.Steps++
 		s.last = g
 		s.epoch.Add(1)
@@ -584,8 +653,12 @@ func Select(site string, hasDefault bool, cases ...Case) *Sel {
 	var order []int
 	var e int64
 	if valid > 1 {
-		k := Entropy(site, fact(n))
+		k, rot := entropyRot(site, fact(n))
 		order = perm(n, k)
+		if k == 0 && rot > 0 {
+			r := rot % n
+			order = append(order[r:], order[:r]...)
+		}
 		raceDisable()
 		if s := cur.Load(); s != nil {
 			e = s.epoch.Load()
